@@ -243,6 +243,48 @@ def parse_checked_in(text):
     return parser.parse(text, bypass_cache=True)
 
 
+# ANTLR's python runtime learns its prediction automata lazily, per process, and the first parses are ~50 times
+# slower than later ones.  The automata live in class attributes of the generated parser, so a parent that has parsed a
+# representative text BEFORE forking its workers hands them over warm.  (No expectation is involved: results are dropped.)
+WARMUP_EXPRS = [
+    "a + b * c - d / e ^ f", "( a .+ b ) .* ( c .- d ) ./ e .^ f", "- a ^ b + ( - c ) * d", "+ a - ( + b )",
+    "a < b and c <= d or not e > f and g >= h", "a == b or c <> d", "not ( p and q ) or r and not s",
+    "if p then a else b", "if a < b then c elseif p and q then d elseif not r then e else f + g",
+    "( if p then a else b ) * ( if q then c else d )", "if if p then q else r then a else if s then b else c",
+    "abs ( a - b ) + sign ( - c ) * min ( a , b * c ) - max ( ( a ) , d ) + div ( a , b ) + der ( e )",
+    "( ( ( a ) ) + ( ( b ) * ( c ) ) )", "( a - ( b - ( c - d ) ) ) / ( ( e / f ) / g )", "( a ^ b ) ^ c + a ^ ( b ^ c )",
+    "2 * 3 - 4 / 5 ^ 6", "1.5e3 + 0.25 - 2. * 1E-2 + 007", "true and false or not true", '"a string with \\"quotes\\" and \\\\ in it"',
+    "9007199254740993 + 18446744073709551617", "a < - b + c", "not a < b", "p and not q or p and q",
+]
+
+
+def _warmup_pairs():
+    """every pair of infix operators in the three bracketings, prefix operators and if/call operands mixed in"""
+    ar = ["+", "-", "*", "/", "^", ".+", ".-", ".*", "./", ".^"]
+    out = []
+    for o1 in ar:
+        for o2 in ar:
+            if "^" not in o1 and "^" not in o2:
+                out.append("a %s b %s - c" % (o1, o2) if o2 in ("+", "-") and False else "a %s b %s c" % (o1, o2))
+            elif "^" in o1 and "^" not in o2:
+                out.append("a %s b %s c" % (o1, o2))
+            elif "^" not in o1:
+                out.append("a %s b %s c" % (o1, o2))
+            out.append("( a %s b ) %s ( - c )" % (o1, o2))
+            out.append("abs ( a ) %s ( b %s ( if p then c else d ) )" % (o1, o2))
+        for r in ("<", "<=", ">", ">=", "==", "<>"):
+            out.append("a %s b %s c and not d %s e or p" % (o1, r, o1) if "^" not in o1 else "a %s b %s c or not p" % (o1, r))
+            out.append("if a %s b then - c %s d else max ( e , f %s g )" % (r, o1, o1) if "^" not in o1 else "if a %s b then - c %s d else e" % (r, o1))
+    return out
+
+
+def warm_up(parse, contexts=CONTEXTS):
+    texts = WARMUP_EXPRS + _warmup_pairs()
+    for cx in contexts:
+        for i in range(0, len(texts), 40):
+            quiet_parse(parse, embed(texts[i:i + 40], cx))
+
+
 _REGEN = {}
 
 
